@@ -140,7 +140,8 @@ class AbstractAxis(AbstractHasMetadata):
         slice(1, 3, None)
         """
         values = self.values[()]
-        tol=tol or self._tol
+        if tol is None:
+            tol = self._tol # the axis' own tolerance, unless the call gives one (0 included)
 
         if tol is not None and not self.is_numeric():
             tol = None # ignore tol parameter for non-numeric axes (an error will be raised if element is not found)
@@ -188,7 +189,7 @@ class AbstractAxis(AbstractHasMetadata):
 
     def is_numeric(self):
         # (from the dtype property: on disk, the values of a str axis are a netCDF4 variable whose dtype is the python type str)
-        return np.dtype(self.dtype).kind in ('i', 'f')
+        return np.dtype(self.dtype).kind in ('i', 'u', 'f')
 
 class AbstractAxes(object):
     _Axis = AbstractAxis
@@ -548,7 +549,6 @@ class AbstractDimArray(AbstractHasAxes):
 
         if np.isscalar(values):
             return values
-
 
         dima = self._constructor(values, axes) # initialize DimArray
         dima.attrs.update(self.attrs) # add attribute
